@@ -25,19 +25,31 @@ func paHex() string {
 }
 
 type g struct {
-	w   io.Writer
-	r   *hx.Rng
-	seq int
-	mem [][]byte
+	w         io.Writer
+	r         *hx.Rng
+	seq       int
+	mem       [][]byte
+	drainMode bool
 }
 
 func (g *g) reset(qmax int) {
 	g.mem = nil
+	g.drainMode = false
 	fmt.Fprintf(g.w, "reset gt=%d qmax=%d pa=%s\n", baseTime, qmax, paHex())
 	fmt.Fprintln(g.w, "produce") // genesis block
 }
 
 func (g *g) arrive(n int) {
+	if g.drainMode {
+		// only what arrived since: what was answered before is gone from the mempool
+		var fresh [][]byte
+		for i := 0; i < n; i++ {
+			g.seq++
+			fresh = append(fresh, []byte(fmt.Sprintf("tx-%d", g.seq)))
+		}
+		fmt.Fprintf(g.w, "mempool mode=drain txs=%s\n", hx.HexList(fresh))
+		return
+	}
 	for i := 0; i < n; i++ {
 		g.seq++
 		g.mem = append(g.mem, []byte(fmt.Sprintf("tx-%d", g.seq)))
@@ -113,6 +125,24 @@ func Gen(r *hx.Rng, tier string, w io.Writer) {
 	x.arrive(2)
 	fmt.Fprintln(w, "reap")
 	x.drain(5)
+	// a DRAINING mempool (the in-repo reference executor: every transaction is answered by exactly one GetTxs) and a
+	// sequencer that refuses the hand-off (queue at its bound): the refused transactions are forgotten (recorded finding)
+	x.reset(1)
+	fmt.Fprintf(w, "mempool mode=drain txs=%s\n", hx.HexList([][]byte{[]byte("d-1"), []byte("d-2")}))
+	fmt.Fprintln(w, "reap")
+	fmt.Fprintf(w, "mempool mode=drain txs=%s\n", hx.HexList([][]byte{[]byte("d-3")}))
+	fmt.Fprintln(w, "reap") // refused: the queue holds one batch
+	fmt.Fprintln(w, "produce")
+	fmt.Fprintln(w, "reap") // the queue has room again, but the mempool does not offer d-3 any more
+	x.drain(3)
+	// … the same with room in the queue: nothing is lost
+	x.reset(2)
+	fmt.Fprintf(w, "mempool mode=drain txs=%s\n", hx.HexList([][]byte{[]byte("d-1"), []byte("d-2")}))
+	fmt.Fprintln(w, "reap")
+	fmt.Fprintf(w, "mempool mode=drain txs=%s\n", hx.HexList([][]byte{[]byte("d-3")}))
+	fmt.Fprintln(w, "reap")
+	fmt.Fprintln(w, "restart")
+	x.drain(4)
 	n := 60
 	if tier == "thorough" {
 		n = 800
@@ -125,6 +155,9 @@ func Gen(r *hx.Rng, tier string, w io.Writer) {
 		x.reset(qmax)
 		crashes := r.Chance(25)
 		execFails := r.Chance(35)
+		// a draining mempool; no crashes then: what a destructive GetTxs handed out and a crash caught before the durable
+		// queue write exists nowhere any more (inherent to that interface, listed under the assumptions)
+		x.drainMode = !crashes && r.Chance(20)
 		steps := 5 + r.Intn(20)
 		for j := 0; j < steps; j++ {
 			switch r.Intn(8) {
